@@ -1,7 +1,8 @@
 /-
-  C02 — dynamic hazard pointers never free an object a guard still protects.
-  Property theorems only.  (The interleaving-level theorem over the protocol machine is in
-  Algo/HP/Protocol.lean once finished; see DESIGN.md section 6.)
+  C02 — dynamic hazard pointers never free an object a guard still protects: the scan DECISION (shared with the
+  static implementation: what is handed to the disposer given the collected hazards), property theorems only.
+  The interleaving-level theorems over the DHP protocol machine (extension blocks, retired-chain growth, every
+  schedule) are in Props/C02DHP.lean.
 -/
 import CdsVerif.Algo.HP.Scan
 namespace CdsVerif.Props.C02
